@@ -136,6 +136,17 @@ def gen_cases(rng, tier):
         ts = sorted(set(t for t in ts if t not in (TO,)))
         arrs = [(t, rng.choice([100, 180, 183, 200, 200, 302, 486, 600]), rng.choice("ab")) for t in ts]
         cases.append(_case("mix%d" % i, kind, rel, arrs))
+    # a caller that waits with receive_final(): however many provisional responses come first (a peer answers every copy of the request
+    # with its 100 Trying, or sends 100 and then 183), the one final response is what it gets
+    k = 0
+    for rel in (0, 1):
+        for arrs in ([(600, 100, "-"), (700, 100, "-"), (900, 200, "a")], [(10, 100, "-"), (20, 183, "a"), (30, 180, "a"), (5000, 404, "a")], [(100, 100, "-"), (200, 486, "a")],
+                     [(300, 200, "a")], [(50, 100, "-"), (60, 100, "-"), (70, 100, "-"), (80, 100, "-")], [(40, 183, "a"), (31000, 183, "a"), (31500, 600, "a")]):
+            c = _case("rf%d" % k, "ni", rel, arrs); k += 1
+            while len(c) < 13:
+                c.append("")
+            c[12] = "rf"
+            cases.append(c)
     return cases
 
 
@@ -153,6 +164,10 @@ def _shift(case, s):
 
 def _linger(case):
     return int(case[10]) if len(case) > 10 and case[10] else 0
+
+
+def _rf(case):
+    return len(case) > 12 and case[12] == "rf"
 
 
 def model_case(case, impl):
@@ -202,6 +217,9 @@ def _end_time(kind, rel, arrs):
 
 
 def normalize_model(case, s):
+    if _rf(case):
+        # receive_final() does not hand the provisional responses over
+        s = " ".join(t for t in s.strip().split() if not re.match(r"G@\d+:P$", t))
     return s.strip()
 
 
@@ -271,7 +289,8 @@ def oracle(case, impl):
                     exp.append(("T", TO)); t_end = TO
                     break
                 if c < 200:
-                    exp.append(("G", t, "P"))
+                    if not _rf(case):
+                        exp.append(("G", t, "P"))
                 else:
                     exp.append(("G", t, "S" if c < 300 else "F"))
                     t_end = t + (0 if rel else T4)
